@@ -1,8 +1,13 @@
 package main
 
-// replay-sparse: replays TLC-generated cases of specs/SparseIndex.tla into the real primary-key sparse
-// index (engine/index/sparseindex) and the skip-index readers, and judges SOUNDNESS (C20): a fragment
-// that contains a row satisfying the condition must be among the fragments the real code selects.
+// replay-sparse: replays TLC-generated cases of specs/SparseIndex.tla (Build -> NewKeyCondition -> Scan)
+// into the real primary-key sparse index (engine/index/sparseindex) and judges SOUNDNESS (C20): a
+// fragment that contains a row satisfying the condition must be among the fragments the real code
+// selects. The real selection being a superset of the specification's is drift, not a verdict.
+// For every case the abstract key values (0..2, 3 = null) are concretised with several column types
+// drawn from the seed (integer, float, string, boolean), and the real reader runs with every setting
+// of the specification (binary search allowed / exclusion search forced, coarse-index 2, 3, 8).
+// The skip-index readers (set, min-max, bloom filter) are driven by the same cases (see spSkip*).
 
 import (
 	"bufio"
@@ -10,30 +15,37 @@ import (
 	"fmt"
 	"math/rand"
 	"os"
+	"path/filepath"
 	"runtime/debug"
 	"sort"
 	"strings"
+	"time"
 
 	"github.com/openGemini/openGemini/engine/immutable"
 	"github.com/openGemini/openGemini/engine/immutable/colstore"
 	"github.com/openGemini/openGemini/engine/index/sparseindex"
+	"github.com/openGemini/openGemini/lib/binaryfilterfunc"
 	"github.com/openGemini/openGemini/lib/fragment"
+	"github.com/openGemini/openGemini/lib/index"
 	"github.com/openGemini/openGemini/lib/record"
+	"github.com/openGemini/openGemini/lib/rpn"
+	"github.com/openGemini/openGemini/lib/tokenizer"
+	"github.com/openGemini/openGemini/lib/util"
 	"github.com/openGemini/openGemini/lib/util/lifted/influx/influxql"
+	"github.com/openGemini/openGemini/lib/util/lifted/influx/query"
 	"github.com/openGemini/openGemini/lib/util/lifted/vm/protoparser/influx"
 )
 
 func init() {
 	cmds["replay-sparse"] = replaySparse
-	cmds["probe-sparse"] = probeSparse
 }
 
-const spNull = 3 // the specification's null key value (sorts last, +infinity in the index)
+const spNull = 4 // the specification's null key value (sorts last, +infinity in the index)
 
 // ---- condition trees (as exported by the specification) -----------------------------------------
 
 type spCond struct {
-	T  string  `json:"t"`  // and | or | cmp | in | nonkey | strop
+	T  string  `json:"t"` // and | or | cmp | in | nonkey | strop
 	L  *spCond `json:"l,omitempty"`
 	R  *spCond `json:"r,omitempty"`
 	C  int     `json:"c,omitempty"`  // key column 1..K
@@ -55,53 +67,6 @@ func (c *spCond) String() string {
 	}
 }
 
-// evalRow: does the row (abstract values) possibly satisfy the condition? Atoms on non-key columns
-// are taken as true (some value of the non-key column satisfies them); comparisons with null are false.
-func (c *spCond) evalRow(row []int) bool {
-	switch c.T {
-	case "and":
-		return c.L.evalRow(row) && c.R.evalRow(row)
-	case "or":
-		return c.L.evalRow(row) || c.R.evalRow(row)
-	case "cmp":
-		x := row[c.C-1]
-		if x == spNull {
-			return false
-		}
-		switch c.Op {
-		case "eq":
-			return x == c.V
-		case "ne":
-			return x != c.V
-		case "lt":
-			return x < c.V
-		case "le":
-			return x <= c.V
-		case "gt":
-			return x > c.V
-		case "ge":
-			return x >= c.V
-		}
-		panic("bad op " + c.Op)
-	case "in":
-		x := row[c.C-1]
-		for _, v := range c.Vs {
-			if x == v {
-				return true
-			}
-		}
-		return false
-	case "strop":
-		// like / match / matchphrase with the literal being the whole value: the row whose value
-		// equals the literal matches under all three operators (and possibly others do, too: the
-		// harness only relies on "equal value => match").
-		return row[c.C-1] == c.V
-	case "nonkey":
-		return true
-	}
-	panic("bad cond " + c.T)
-}
-
 func (c *spCond) walk(f func(*spCond)) {
 	f(c)
 	if c.L != nil {
@@ -110,6 +75,16 @@ func (c *spCond) walk(f func(*spCond)) {
 	if c.R != nil {
 		c.R.walk(f)
 	}
+}
+
+func (c *spCond) has(pred func(*spCond) bool) bool {
+	found := false
+	c.walk(func(n *spCond) {
+		if pred(n) {
+			found = true
+		}
+	})
+	return found
 }
 
 // ---- concretisation -----------------------------------------------------------------------------
@@ -124,9 +99,12 @@ type spCol struct {
 	bmap map[int]bool // boolean columns: abstract value -> false/true
 }
 
-var spIntImages = [][3]int64{{0, 1, 2}, {-7, 0, 5}, {1, 2, 3}, {-9223372036854775807, -1, 9223372036854775806}, {10, 20, 21}, {-3, -2, 4}}
+// integer images: "ia" columns of the specification carry consecutive integers, "o" columns integers
+// with gaps (then the closed form v-1 of an open bound lies strictly between two values)
+var spIntAdjImages = [][3]int64{{0, 1, 2}, {1, 2, 3}, {-1, 0, 1}, {-2, -1, 0}, {1600000000000000000, 1600000000000000001, 1600000000000000002}, {9223372036854775804, 9223372036854775805, 9223372036854775806}}
+var spIntGapImages = [][3]int64{{-7, 0, 5}, {10, 20, 30}, {-3, -1, 4}, {0, 2, 4}, {-9223372036854775806, -1, 9223372036854775806}}
 var spFltImages = [][3]float64{{0, 1, 2}, {-1.5, 0, 2.25}, {0.1, 0.2, 0.30000000000000004}, {-1e300, 1e-300, 1e300}, {1, 1.0000000000000002, 2}}
-var spStrImages = [][3]string{{"A", "B", "C"}, {"", "a", "b"}, {"U1", "U10", "U2"}, {"a", "aa", "ab"}, {"B", "C", "D"}, {"x y", "x z", "y"}}
+var spStrImages = [][3]string{{"A", "B", "C"}, {"", "a", "b"}, {"U1", "U10", "U2"}, {"a", "aa", "ab"}, {"B", "C", "D"}, {"x", "x y", "y"}, {"a b", "b", "b c"}}
 
 func (c *spCol) field() record.Field { return record.Field{Name: c.name, Type: c.typ} }
 
@@ -198,37 +176,68 @@ func (c *spCol) show(v int) string {
 	}
 }
 
+func spTypeName(t int) string {
+	switch t {
+	case influx.Field_Type_Int:
+		return "int"
+	case influx.Field_Type_Float:
+		return "float"
+	case influx.Field_Type_Boolean:
+		return "bool"
+	default:
+		return "string"
+	}
+}
+
 var spOps = map[string]influxql.Token{"eq": influxql.EQ, "ne": influxql.NEQ, "lt": influxql.LT, "le": influxql.LTE, "gt": influxql.GT, "ge": influxql.GTE,
 	"like": influxql.LIKE, "match": influxql.MATCH, "matchphrase": influxql.MATCHPHRASE}
 var spSwap = map[influxql.Token]influxql.Token{influxql.EQ: influxql.EQ, influxql.NEQ: influxql.NEQ, influxql.LT: influxql.GT, influxql.GT: influxql.LT, influxql.LTE: influxql.GTE, influxql.GTE: influxql.LTE}
 
 // a variant = one concretisation of a case
 type spVariant struct {
-	cols    []*spCol
-	fixed   bool // IndexFragmentFixedSize vs variable
-	flip    bool // write comparisons as "literal op column" sometimes
-	parens  bool
-	rng     *rand.Rand
-	timeCol int // 1-based key column that is the time column (0 = none)
+	cols      []*spCol
+	fixed     bool  // IndexFragmentFixedSize vs variable
+	style     int   // 0: column op literal; 1: some comparisons flipped (literal op column) and parenthesised
+	styleSeed int64 // expression building is a function of (style, styleSeed) only
+	timeCol   int   // 1-based key column that is the time column (0 = none)
+	shielded  bool  // predictor variant: integer columns replaced by float columns with the same images
 }
 
-func (v *spVariant) expr(c *spCond) influxql.Expr {
-	var e influxql.Expr
+func (v *spVariant) describe() string {
+	var ts []string
+	for _, c := range v.cols {
+		img := ""
+		switch c.typ {
+		case influx.Field_Type_Int:
+			img = fmt.Sprint(c.ints)
+		case influx.Field_Type_Float:
+			img = fmt.Sprint(c.flts)
+		case influx.Field_Type_Boolean:
+			img = fmt.Sprint(c.bmap)
+		default:
+			img = fmt.Sprintf("%q", c.strs)
+		}
+		ts = append(ts, c.name+":"+spTypeName(c.typ)+img)
+	}
+	return fmt.Sprintf("types=%v fixed=%v style=%d", ts, v.fixed, v.style)
+}
+
+func (v *spVariant) exprR(c *spCond, rng *rand.Rand) influxql.Expr {
 	switch c.T {
 	case "and", "or":
 		op := influxql.AND
 		if c.T == "or" {
 			op = influxql.OR
 		}
-		e = &influxql.BinaryExpr{Op: influxql.Token(op), LHS: v.expr(c.L), RHS: v.expr(c.R)}
-		if v.parens && v.rng.Intn(2) == 0 {
+		var e influxql.Expr = &influxql.BinaryExpr{Op: influxql.Token(op), LHS: v.exprR(c.L, rng), RHS: v.exprR(c.R, rng)}
+		if v.style == 1 && rng.Intn(2) == 0 {
 			e = &influxql.ParenExpr{Expr: e}
 		}
 		return e
 	case "cmp", "strop":
 		col := v.cols[c.C-1]
 		op := spOps[c.Op]
-		if c.T == "cmp" && v.flip && v.rng.Intn(3) == 0 {
+		if c.T == "cmp" && v.style == 1 && rng.Intn(3) == 0 {
 			return &influxql.BinaryExpr{Op: spSwap[op], LHS: col.literal(c.V), RHS: col.varRef()}
 		}
 		return &influxql.BinaryExpr{Op: op, LHS: col.varRef(), RHS: col.literal(c.V)}
@@ -241,6 +250,8 @@ func (v *spVariant) expr(c *spCond) influxql.Expr {
 				vals[float64(col.ints[x])] = true
 			case influx.Field_Type_Float:
 				vals[col.flts[x]] = true
+			case influx.Field_Type_Boolean:
+				vals[col.bmap[x]] = true
 			default:
 				vals[col.strs[x]] = true
 			}
@@ -249,6 +260,65 @@ func (v *spVariant) expr(c *spCond) influxql.Expr {
 	default: // nonkey
 		return &influxql.BinaryExpr{Op: influxql.EQ, LHS: &influxql.VarRef{Val: "height", Type: influxql.Integer}, RHS: &influxql.IntegerLiteral{Val: 180}}
 	}
+}
+
+// expr builds a fresh influxql expression (NewKeyCondition rewrites the tree it is given)
+func (v *spVariant) expr(c *spCond) influxql.Expr {
+	if c == nil {
+		return nil
+	}
+	return v.exprR(c, rand.New(rand.NewSource(v.styleSeed)))
+}
+
+type spTB struct {
+	C  int `json:"c"`
+	Lo int `json:"lo"`
+	Hi int `json:"hi"`
+}
+
+func (t spTB) active() bool { return t.C != 0 && (t.Lo >= 0 || t.Hi < spNull) }
+
+// the specification's TimeCond: what GetTimeCondition builds
+func (t spTB) cond() *spCond {
+	ge := &spCond{T: "cmp", C: t.C, Op: "ge", V: t.Lo}
+	le := &spCond{T: "cmp", C: t.C, Op: "le", V: t.Hi}
+	switch {
+	case t.Lo == t.Hi:
+		return &spCond{T: "cmp", C: t.C, Op: "eq", V: t.Lo}
+	case t.Lo >= 0 && t.Hi < spNull:
+		return &spCond{T: "and", L: ge, R: le}
+	case t.Lo >= 0:
+		return ge
+	default:
+		return le
+	}
+}
+
+func spFullCond(c *spCond, t spTB) *spCond {
+	if t.active() {
+		return &spCond{T: "and", L: t.cond(), R: c}
+	}
+	return c
+}
+
+// timeCondition: the real time condition (binaryfilterfunc.GetTimeCondition); the shielded predictor
+// variant has no integer time column, there the same atoms are built from the specification's tree
+func (v *spVariant) timeCondition(t spTB, pkSchema record.Schemas) influxql.Expr {
+	if !t.active() {
+		return nil
+	}
+	if v.shielded {
+		return v.expr(t.cond())
+	}
+	col := v.cols[t.C-1]
+	tr := util.TimeRange{Min: influxql.MinTime, Max: influxql.MaxTime}
+	if t.Lo >= 0 {
+		tr.Min = col.ints[t.Lo]
+	}
+	if t.Hi < spNull {
+		tr.Max = col.ints[t.Hi]
+	}
+	return binaryfilterfunc.GetTimeCondition(tr, pkSchema, pkSchema.FieldIndex(record.TimeField))
 }
 
 // buildRecord makes the data record: key columns (abstract rows are already sorted, null last)
@@ -266,6 +336,117 @@ func (v *spVariant) buildRecord(rows [][]int) (*record.Record, record.Schemas) {
 	return rec, schema
 }
 
+// cellString renders cell (col, row) of a real record
+func spCellString(rec *record.Record, col, row int) string {
+	cv := rec.Column(col)
+	if cv.IsNil(row) {
+		return "null"
+	}
+	switch rec.Schema[col].Type {
+	case influx.Field_Type_Int:
+		x, _ := cv.IntegerValue(row)
+		return fmt.Sprintf("%d", x)
+	case influx.Field_Type_Float:
+		x, _ := cv.FloatValue(row)
+		return fmt.Sprintf("%g", x)
+	case influx.Field_Type_Boolean:
+		x, _ := cv.BooleanValue(row)
+		return fmt.Sprintf("%v", x)
+	default:
+		x, _ := cv.StringValueSafe(row)
+		return fmt.Sprintf("%q", x)
+	}
+}
+
+func spRecString(rec *record.Record) (s string) {
+	defer func() {
+		if r := recover(); r != nil {
+			s = fmt.Sprintf("<unreadable record: %v>", r)
+		}
+	}()
+	var rowsS []string
+	for r := 0; r < rec.RowNums(); r++ {
+		var cells []string
+		for c := range rec.Schema {
+			cells = append(cells, spCellString(rec, c, r))
+		}
+		rowsS = append(rowsS, "("+strings.Join(cells, ",")+")")
+	}
+	return strings.Join(rowsS, " ")
+}
+
+// concrete row-level truth (the oracle): comparisons and IN are decided on the abstract values
+// (the concretisation is an order-preserving injection); comparisons with null are false; an atom
+// on a non-key column may be true; matchphrase is decided by the real token finder of the row
+// filter; like / match with a literal equal to the whole value are true.
+func (v *spVariant) evalRow(c *spCond, row []int) bool {
+	switch c.T {
+	case "and":
+		return v.evalRow(c.L, row) && v.evalRow(c.R, row)
+	case "or":
+		return v.evalRow(c.L, row) || v.evalRow(c.R, row)
+	case "cmp":
+		x := row[c.C-1]
+		if x == spNull {
+			return false
+		}
+		switch c.Op {
+		case "eq":
+			return x == c.V
+		case "ne":
+			return x != c.V
+		case "lt":
+			return x < c.V
+		case "le":
+			return x <= c.V
+		case "gt":
+			return x > c.V
+		case "ge":
+			return x >= c.V
+		}
+		panic("bad op " + c.Op)
+	case "in":
+		x := row[c.C-1]
+		for _, y := range c.Vs {
+			if x == y {
+				return true
+			}
+		}
+		return false
+	case "strop":
+		x := row[c.C-1]
+		if x == spNull {
+			return false
+		}
+		if x == c.V {
+			return true
+		}
+		if c.Op == "matchphrase" {
+			col := v.cols[c.C-1]
+			tf := tokenizer.NewSimpleTokenFinder(tokenizer.GetFullTextOption(nil).TokensTable)
+			tf.InitInput([]byte(col.strs[x]), []byte(col.strs[c.V]))
+			return tf.Next()
+		}
+		return false
+	case "nonkey":
+		return true
+	}
+	panic("bad cond " + c.T)
+}
+
+func (v *spVariant) matchFrags(cond *spCond, rows [][]int, g int) []int {
+	out := []int{}
+	for i, r := range rows {
+		if v.evalRow(cond, r) {
+			f := i / g
+			if len(out) == 0 || out[len(out)-1] != f {
+				out = append(out, f)
+			}
+		}
+	}
+	return out
+}
+
 // forceExclusion wraps a key condition so that PKIndexReaderImpl.Scan takes the exclusion search
 type forceExclusion struct{ sparseindex.KeyCondition }
 
@@ -278,32 +459,20 @@ type spScanSetting struct {
 	minMarks int // MinRowsForSeek = minMarks * rowsPerFragment
 }
 
+// the settings of the specification (SparseIndex.tla: Settings)
 var spSettings = []spScanSetting{
-	{"auto/c2/m0", false, 2, 0}, {"excl/c2/m0", true, 2, 0}, {"excl/c3/m0", true, 3, 0}, {"excl/c8/m0", true, 8, 0},
-	{"excl/c2/m1", true, 2, 1}, {"excl/c3/m1", true, 3, 1}, {"auto/c8/m1", false, 8, 1},
+	{"autoc2m0", false, 2, 0}, {"exclc2m0", true, 2, 0}, {"exclc3m0", true, 3, 0}, {"exclc8m0", true, 8, 0},
+	{"exclc2m1", true, 2, 1}, {"exclc3m1", true, 3, 1}, {"autoc8m1", false, 8, 1},
 }
 
 func fragsOf(frs fragment.FragmentRanges) []int {
-	var out []int
+	out := []int{}
 	for _, fr := range frs {
 		for i := fr.Start; i < fr.End; i++ {
 			out = append(out, int(i))
 		}
 	}
 	sort.Ints(out)
-	return out
-}
-
-func matchFrags(cond *spCond, rows [][]int, g int) []int {
-	var out []int
-	for i, r := range rows {
-		if cond.evalRow(r) {
-			f := i / g
-			if len(out) == 0 || out[len(out)-1] != f {
-				out = append(out, f)
-			}
-		}
-	}
 	return out
 }
 
@@ -333,46 +502,101 @@ func sameInts(a, b []int) bool {
 	return true
 }
 
-type spScanOut struct {
-	sel    []int
+type spBuilt struct {
+	rec      *record.Record
+	pkSchema record.Schemas
+	pkRec    *record.Record
+	pkMark   fragment.IndexFragment
+}
+
+// realBuild: the real index writer
+func (v *spVariant) realBuild(rows [][]int, g int) (b spBuilt, err error) {
+	defer func() {
+		if r := recover(); r != nil {
+			err = fmt.Errorf("Build panicked: %v", r)
+		}
+	}()
+	b.rec, b.pkSchema = v.buildRecord(rows)
+	fix := 0
+	if v.fixed {
+		fix = g
+	}
+	b.pkRec, b.pkMark, err = sparseindex.NewPKIndexWriter().Build(b.rec, b.pkSchema, immutable.GenFixRowsPerSegment(b.rec, g), colstore.DefaultTCLocation, fix)
+	return
+}
+
+type spKC struct {
+	kc     *sparseindex.KeyConditionImpl
 	err    error
 	panicv interface{}
 	stack  string
 }
 
-// realScan: real writer -> real key condition -> real Scan
-func (v *spVariant) realScan(rows [][]int, g int, cond *spCond, timeCond influxql.Expr, st spScanSetting) (out spScanOut, pkRec *record.Record) {
+// realKeyCondition: the real NewKeyCondition(timeCond, cond, pkSchema)
+func (v *spVariant) realKeyCondition(cond *spCond, tb spTB, pkSchema record.Schemas) (k spKC) {
+	defer func() {
+		if r := recover(); r != nil {
+			k.panicv = r
+			k.stack = string(debug.Stack())
+		}
+	}()
+	k.kc, k.err = sparseindex.NewKeyCondition(v.timeCondition(tb, pkSchema), v.expr(cond), pkSchema)
+	return
+}
+
+type spScanOut struct {
+	sel     []int
+	err     error
+	panicv  interface{}
+	stack   string
+	mutated string // non-empty: the index record was modified by the read-only Scan (before => after)
+}
+
+func (o spScanOut) failed() bool { return o.err != nil || o.panicv != nil }
+
+func (o spScanOut) String() string {
+	switch {
+	case o.panicv != nil:
+		return fmt.Sprintf("panic(%v)", o.panicv)
+	case o.err != nil:
+		return fmt.Sprintf("error(%v)", o.err)
+	default:
+		return fmt.Sprint(o.sel)
+	}
+}
+
+// realScan: real writer -> real key condition -> real Scan, on fresh objects
+func (v *spVariant) realScan(rows [][]int, g int, cond *spCond, tb spTB, st spScanSetting) (out spScanOut) {
+	b, err := v.realBuild(rows, g)
+	if err != nil {
+		out.err = err
+		return
+	}
+	k := v.realKeyCondition(cond, tb, b.pkSchema)
+	if k.panicv != nil {
+		out.panicv, out.stack = k.panicv, k.stack
+		return
+	}
+	if k.err != nil {
+		out.err = fmt.Errorf("NewKeyCondition: %w", k.err)
+		return
+	}
+	before := spRecString(b.pkRec)
 	defer func() {
 		if r := recover(); r != nil {
 			out.panicv = r
 			out.stack = string(debug.Stack())
 		}
+		if after := spRecString(b.pkRec); after != before {
+			out.mutated = before + " => " + after
+		}
 	}()
-	rec, pkSchema := v.buildRecord(rows)
-	fix := 0
-	if v.fixed {
-		fix = g
-	}
-	pkRec, pkMark, err := sparseindex.NewPKIndexWriter().Build(rec, pkSchema, immutable.GenFixRowsPerSegment(rec, g), colstore.DefaultTCLocation, fix)
-	if err != nil {
-		out.err = fmt.Errorf("Build: %w", err)
-		return
-	}
-	var ce influxql.Expr
-	if cond != nil {
-		ce = v.expr(cond)
-	}
-	kc, err := sparseindex.NewKeyCondition(timeCond, ce, pkSchema)
-	if err != nil {
-		out.err = fmt.Errorf("NewKeyCondition: %w", err)
-		return
-	}
-	var k sparseindex.KeyCondition = kc
+	var kc sparseindex.KeyCondition = k.kc
 	if st.excl {
-		k = forceExclusion{kc}
+		kc = forceExclusion{k.kc}
 	}
 	rd := sparseindex.NewPKIndexReader(g, st.coarse, st.minMarks*g)
-	frs, err := rd.Scan("f.idx", pkRec, pkMark, k)
+	frs, err := rd.Scan("f.idx", b.pkRec, b.pkMark, kc)
 	if err != nil {
 		out.err = fmt.Errorf("Scan: %w", err)
 		return
@@ -381,63 +605,153 @@ func (v *spVariant) realScan(rows [][]int, g int, cond *spCond, timeCond influxq
 	return
 }
 
-// ---- probe (development aid): random cases without a specification -----------------------------
+// ---- the case format ----------------------------------------------------------------------------
 
-func randCond(rng *rand.Rand, k, depth int, strops bool) *spCond {
-	if depth == 0 || rng.Intn(3) == 0 {
-		x := rng.Intn(20)
-		switch {
-		case x == 0:
-			return &spCond{T: "nonkey"}
-		default:
-			ops := []string{"eq", "ne", "lt", "le", "gt", "ge"}
-			return &spCond{T: "cmp", C: 1 + rng.Intn(k), Op: ops[rng.Intn(len(ops))], V: rng.Intn(3)}
-		}
-	}
-	t := "and"
-	if rng.Intn(2) == 0 {
-		t = "or"
-	}
-	return &spCond{T: t, L: randCond(rng, k, depth-1, strops), R: randCond(rng, k, depth-1, strops)}
+type spStep struct {
+	A    string          `json:"a"`
+	Args json.RawMessage `json:"args"`
+	Exp  json.RawMessage `json:"exp"`
 }
 
-func randVariant(rng *rand.Rand, k int, rows [][]int, cond *spCond) *spVariant {
-	v := &spVariant{rng: rng, fixed: rng.Intn(2) == 0, flip: rng.Intn(2) == 0, parens: rng.Intn(2) == 0}
-	for i := 0; i < k; i++ {
-		used := map[int]bool{}
-		for _, r := range rows {
-			if r[i] != spNull {
-				used[r[i]] = true
+type spCase struct {
+	ID   int      `json:"id"`
+	Seed int64    `json:"seed"`
+	Hist []spStep `json:"hist"`
+	// options set by props/c20.py
+	Variants int  `json:"variants"`
+	Skip     bool `json:"skip"` // also drive the skip-index readers
+}
+
+type spBuildArgs struct {
+	K    int     `json:"k"`
+	G    int     `json:"g"`
+	Rows  [][]int  `json:"rows"`
+	Types []string `json:"types"` // per key column: "ia" (integer, consecutive values) or "o" (anything else)
+}
+type spBuildExp struct {
+	Nf  int     `json:"nf"`
+	Idx [][]int `json:"idx"`
+}
+type spCondArgs struct {
+	Cond *spCond `json:"cond"`
+	Tb   spTB    `json:"tb"`
+}
+type spCondExp struct {
+	Rpnlen     int  `json:"rpnlen"`
+	Maxkey     int  `json:"maxkey"`
+	Implrpnlen int  `json:"implrpnlen"`
+	Implmaxkey int  `json:"implmaxkey"`
+	Implerr    bool `json:"implerr"`
+}
+type spScanExp struct {
+	Match   []int            `json:"match"`
+	Implerr bool             `json:"implerr"`
+	Sel     map[string][]int `json:"sel"`
+	Impl    map[string][]int `json:"impl"`
+	Implo   map[string][]int `json:"implo"` // as-implemented model with no integer column
+}
+
+type spResult struct {
+	ID       int               `json:"id"`
+	OK       bool              `json:"ok"`
+	Step     int               `json:"step"`
+	Action   string            `json:"action,omitempty"`
+	Detail   string            `json:"detail,omitempty"`
+	Infra    string            `json:"infra,omitempty"`
+	Hang     bool              `json:"hang,omitempty"`
+	Known    map[string]string `json:"known,omitempty"` // finding id -> one example of a divergence attributed to it
+	KnownN   map[string]int    `json:"known_n,omitempty"`
+	Variants int               `json:"variants"`
+	Scans    int               `json:"scans"`
+	Unsound  int               `json:"unsound"` // scans that skipped a fragment with a match (attributed or not)
+	Failed   int               `json:"failed"`  // scans that ended in an error or a panic (attributed or not)
+	Drift    int               `json:"drift"`   // sound scans that selected more than the specification
+	Exact    int               `json:"exact"`   // scans equal to the specification's selection
+	Mutated  int               `json:"mutated"` // scans that modified the index record
+	SkipEval int               `json:"skip_eval"`
+	DriftEx  string            `json:"drift_ex,omitempty"`
+}
+
+func (r *spResult) known(id, detail string) {
+	if r.Known == nil {
+		r.Known = map[string]string{}
+		r.KnownN = map[string]int{}
+	}
+	if _, ok := r.Known[id]; !ok {
+		r.Known[id] = detail
+	}
+	r.KnownN[id]++
+}
+
+func (r *spResult) fail(step int, action, detail string) {
+	if r.OK {
+		r.OK = false
+		r.Step, r.Action, r.Detail = step, action, detail
+	}
+}
+
+// ---- variants -----------------------------------------------------------------------------------
+
+func spUsedValues(col int, rows [][]int, cond *spCond) (used map[int]bool, strOnly bool) {
+	used = map[int]bool{}
+	for _, r := range rows {
+		if r[col] != spNull {
+			used[r[col]] = true
+		}
+	}
+	if cond != nil {
+		cond.walk(func(c *spCond) {
+			if (c.T == "cmp" || c.T == "strop") && c.C == col+1 {
+				used[c.V] = true
 			}
-		}
-		strOnly := false
-		if cond != nil {
-			cond.walk(func(c *spCond) {
-				if (c.T == "cmp" || c.T == "strop") && c.C == i+1 {
-					used[c.V] = true
+			if c.T == "in" && c.C == col+1 {
+				for _, x := range c.Vs {
+					used[x] = true
 				}
-				if c.T == "in" && c.C == i+1 {
-					for _, x := range c.Vs {
-						used[x] = true
-					}
-				}
-				if c.T == "strop" && c.C == i+1 {
-					strOnly = true
-				}
-			})
-		}
+			}
+			if c.T == "strop" && c.C == col+1 {
+				strOnly = true
+			}
+		})
+	}
+	return
+}
+
+func spNewVariant(rng *rand.Rand, nth int, k int, ctypes []string, rows [][]int, full *spCond, tb spTB) *spVariant {
+	v := &spVariant{fixed: rng.Intn(2) == 0, style: rng.Intn(2), styleSeed: rng.Int63()}
+	if tb.C != 0 {
+		v.timeCol = tb.C
+	}
+	for i := 0; i < k; i++ {
+		used, strOnly := spUsedValues(i, rows, full)
 		c := &spCol{name: fmt.Sprintf("k%d", i+1)}
 		types := []int{influx.Field_Type_Int, influx.Field_Type_Float, influx.Field_Type_String}
 		if len(used) <= 2 {
 			types = append(types, influx.Field_Type_Boolean)
 		}
 		c.typ = types[rng.Intn(len(types))]
-		if strOnly {
+		if nth == 0 { // the first variant of every case: strings wherever possible (the documented usage)
 			c.typ = influx.Field_Type_String
 		}
-		c.ints = spIntImages[rng.Intn(len(spIntImages))]
+		c.ints = spIntGapImages[rng.Intn(len(spIntGapImages))]
+		if ctypes[i] == "ia" {
+			c.typ = influx.Field_Type_Int
+			c.ints = spIntAdjImages[rng.Intn(len(spIntAdjImages))]
+		}
 		c.flts = spFltImages[rng.Intn(len(spFltImages))]
 		c.strs = spStrImages[rng.Intn(len(spStrImages))]
+		if strOnly && ctypes[i] != "ia" {
+			c.typ = influx.Field_Type_String
+		}
+		if v.timeCol == i+1 { // the time column: an integer column with values strictly inside (MinTime, MaxTime)
+			c.typ = influx.Field_Type_Int
+			c.name = record.TimeField
+			if ctypes[i] == "ia" {
+				c.ints = spIntAdjImages[rng.Intn(len(spIntAdjImages)-1)]
+			} else {
+				c.ints = spIntGapImages[rng.Intn(len(spIntGapImages)-1)]
+			}
+		}
 		if c.typ == influx.Field_Type_Boolean {
 			var us []int
 			for u := range used {
@@ -457,85 +771,427 @@ func randVariant(rng *rand.Rand, k int, rows [][]int, cond *spCond) *spVariant {
 	return v
 }
 
-func probeSparse(args []string) int {
-	seed := int64(1)
-	n := 20000
-	if len(args) > 0 {
-		fmt.Sscanf(args[0], "%d", &seed)
+// shield: the predictor variant for finding F-C20-2 -- the same case with every integer key column
+// replaced by a float column carrying the same numbers (only integer columns are rewritten in place
+// by Range.turnOpenRangeIntoClosed)
+func (v *spVariant) shield() *spVariant {
+	s := *v
+	s.shielded = true
+	s.cols = nil
+	for _, c := range v.cols {
+		cc := *c
+		if cc.typ == influx.Field_Type_Int {
+			cc.typ = influx.Field_Type_Float
+			for i := range cc.ints {
+				cc.flts[i] = float64(cc.ints[i])
+			}
+			if cc.name == record.TimeField {
+				cc.name = "time_"
+			}
+		}
+		s.cols = append(s.cols, &cc)
 	}
-	if len(args) > 1 {
-		fmt.Sscanf(args[1], "%d", &n)
+	return &s
+}
+
+// ---- attribution of divergences to open known findings --------------------------------------------
+//
+// F-C20-1  checkRangeRightBound returns the mask of the last hyper-rectangle instead of the
+//          accumulated one (spec deviation right_bound_overwrites). Predicate: the condition uses at
+//          least two key columns. Predictor: the specification's as-implemented selection.
+// F-C20-2  Range.turnOpenRangeIntoClosed rewrites integer cells of the index record in place
+//          (val+1 / val-1) while a condition over >= 3 key columns is evaluated. Predicate: >= 3 key
+//          columns used, an integer column among the inner ones (2..used-1). Predictor: the index
+//          record was observably modified by the read-only Scan (or the panic is raised inside
+//          turnOpenRangeIntoClosed), and the same case with the integer columns replaced by float
+//          columns of the same values gives exactly the specification's as-implemented selection.
+// F-C20-3  operators genRPNElementByOp does not know (LIKE, MATCH) append no RPN element, IN leaves
+//          a SetLiteral that convertToRPNElem cannot digest: the query fails (error or index-out-of-
+//          range panic in checkInRangeForAnd/Or) instead of selecting. Predictor: the specification's
+//          as-implemented model predicts the failure (unbalanced stack / IN present).
+// F-C20-4  MATCHPHRASE on a key column is converted into the point range [v, v] (equality) although
+//          the row filter matches every value that contains the phrase (spec deviation
+//          matchphrase_as_equality). Predicate: a matchphrase atom on a key column.
+
+type spCtx struct {
+	rows   [][]int
+	g      int
+	k      int
+	cond   *spCond
+	tb     spTB
+	full   *spCond
+	cexp   spCondExp
+	sexp   spScanExp
+	res    *spResult
+	caseID int
+}
+
+func (x *spCtx) hasIntInner(v *spVariant) bool {
+	for i := 1; i < x.cexp.Implmaxkey-1; i++ { // 0-based inner columns 1..used-2
+		if v.cols[i].typ == influx.Field_Type_Int {
+			return true
+		}
 	}
-	rng := rand.New(rand.NewSource(seed))
-	bad, errs, panics := 0, map[string]int{}, map[string]int{}
-	shown := 0
-	for it := 0; it < n; it++ {
-		k := 1 + rng.Intn(3)
-		nr := 1 + rng.Intn(8)
-		withNull := rng.Intn(3) == 0 && !(len(args) > 2 && args[2] == "nonull")
-		rows := make([][]int, nr)
-		for i := range rows {
-			rows[i] = make([]int, k)
-			for j := range rows[i] {
-				rows[i][j] = rng.Intn(3)
-				if withNull && rng.Intn(4) == 0 {
-					rows[i][j] = spNull
+	return false
+}
+
+func (x *spCtx) hasMatchPhrase() bool {
+	return x.full.has(func(c *spCond) bool { return c.T == "strop" && c.Op == "matchphrase" })
+}
+
+func (x *spCtx) hasUnknownOpOrIn() bool {
+	return x.full.has(func(c *spCond) bool { return (c.T == "strop" && c.Op != "matchphrase") || c.T == "in" })
+}
+
+// judge one real scan result; returns "" when it is sound (or attributed), else the violation text
+func (x *spCtx) judge(v *spVariant, st spScanSetting, out spScanOut, match []int) string {
+	r := x.res
+	r.Scans++
+	design, impl, implo := x.sexp.Sel[st.name], x.sexp.Impl[st.name], x.sexp.Implo[st.name]
+	where := fmt.Sprintf("case %d %s setting=%s g=%d rows=%v cond=%s tb=%+v", x.caseID, v.describe(), st.name, x.g, x.rows, x.cond, x.tb)
+	if out.mutated != "" {
+		r.Mutated++
+	}
+	if out.failed() {
+		r.Failed++
+		if x.sexp.Implerr && x.hasUnknownOpOrIn() {
+			r.known("F-C20-3", fmt.Sprintf("%s: %s instead of a selection (design selects %v)", where, out, design))
+			return ""
+		}
+		shieldNote := ""
+		if out.panicv != nil && strings.Contains(out.stack, "turnOpenRangeIntoClosed") && x.hasIntInner(v) {
+			s := v.shield().realScan(x.rows, x.g, x.cond, x.tb, st)
+			if !s.failed() && sameInts(s.sel, implo) {
+				r.known("F-C20-2", fmt.Sprintf("%s: %s raised in turnOpenRangeIntoClosed; with float columns of the same values the selection is %v", where, out, s.sel))
+				return ""
+			}
+			shieldNote = fmt.Sprintf(" [with float columns: %s, as-implemented model without integer columns: %v]", s, implo)
+		}
+		return fmt.Sprintf("%s: real code failed with %s; the specification selects %v (as-implemented model: fails=%v %v)%s\n%s", where, out, design, x.sexp.Implerr, impl, shieldNote, out.stack)
+	}
+	sound, miss := subset(match, out.sel)
+	if sound {
+		if sameInts(out.sel, design) {
+			r.Exact++
+		} else {
+			r.Drift++
+			if r.DriftEx == "" {
+				r.DriftEx = fmt.Sprintf("%s: real=%v spec=%v matching=%v", where, out.sel, design, match)
+			}
+		}
+		if out.mutated != "" && x.hasIntInner(v) {
+			r.known("F-C20-2", fmt.Sprintf("%s: the index record was modified by Scan: %s (selection %v still sound)", where, out.mutated, out.sel))
+		}
+		return ""
+	}
+	r.Unsound++
+	text := fmt.Sprintf("%s: fragments %v contain matching rows but are not selected: real=%v matching=%v spec=%v as-implemented-model=%v", where, miss, out.sel, match, design, impl)
+	if !x.sexp.Implerr && sameInts(out.sel, impl) && !sameInts(impl, design) {
+		mp, multi := x.hasMatchPhrase(), x.cexp.Implmaxkey >= 2
+		switch {
+		case multi && !mp:
+			r.known("F-C20-1", text)
+			return ""
+		case mp && !multi:
+			r.known("F-C20-4", text)
+			return ""
+		case mp && multi:
+			r.known("F-C20-1", text)
+			r.known("F-C20-4", text)
+			return ""
+		}
+	}
+	if out.mutated != "" && x.hasIntInner(v) {
+		if s := v.shield().realScan(x.rows, x.g, x.cond, x.tb, st); !s.failed() && s.mutated == "" && sameInts(s.sel, implo) {
+			r.known("F-C20-2", fmt.Sprintf("%s; index record modified by Scan: %s; with float columns of the same values the selection is %v", text, out.mutated, s.sel))
+			return ""
+		}
+	}
+	return text
+}
+
+// ---- one case -----------------------------------------------------------------------------------
+
+func runSparseCase(sc *spCase, tmp string) (res spResult) {
+	res = spResult{ID: sc.ID, OK: true, Step: -1}
+	defer func() {
+		if r := recover(); r != nil {
+			res.Infra = fmt.Sprintf("harness panic: %v\n%s", r, debug.Stack())
+		}
+	}()
+	if len(sc.Hist) != 3 || sc.Hist[0].A != "Build" || sc.Hist[1].A != "NewKeyCondition" || sc.Hist[2].A != "Scan" {
+		res.Infra = "case is not Build, NewKeyCondition, Scan"
+		return
+	}
+	var ba spBuildArgs
+	var be spBuildExp
+	var ca spCondArgs
+	x := &spCtx{res: &res, caseID: sc.ID}
+	for _, e := range []error{json.Unmarshal(sc.Hist[0].Args, &ba), json.Unmarshal(sc.Hist[0].Exp, &be), json.Unmarshal(sc.Hist[1].Args, &ca),
+		json.Unmarshal(sc.Hist[1].Exp, &x.cexp), json.Unmarshal(sc.Hist[2].Exp, &x.sexp)} {
+		if e != nil {
+			res.Infra = "bad case: " + e.Error()
+			return
+		}
+	}
+	x.rows, x.g, x.k, x.cond, x.tb = ba.Rows, ba.G, ba.K, ca.Cond, ca.Tb
+	if len(ba.Types) != ba.K {
+		res.Infra = "bad case: types"
+		return
+	}
+	x.full = spFullCond(ca.Cond, ca.Tb)
+	rng := rand.New(rand.NewSource(sc.Seed*1000003 + int64(sc.ID)))
+	nv := sc.Variants
+	if nv <= 0 {
+		nv = 3
+	}
+	for n := 0; n < nv; n++ {
+		v := spNewVariant(rng, n, x.k, ba.Types, x.rows, x.full, x.tb)
+		res.Variants++
+		// --- Build: the real index record must be the specification's
+		b, err := v.realBuild(x.rows, x.g)
+		if err != nil {
+			res.fail(0, "Build", fmt.Sprintf("case %d %s: Build failed: %v", sc.ID, v.describe(), err))
+			return
+		}
+		var want []string
+		for _, ir := range be.Idx {
+			var cells []string
+			for ci, a := range ir {
+				cells = append(cells, v.cols[ci].show(a))
+			}
+			want = append(want, "("+strings.Join(cells, ",")+")")
+		}
+		if got := spRecString(b.pkRec); got != strings.Join(want, " ") || int(b.pkMark.GetFragmentCount()) != be.Nf {
+			res.fail(0, "Build", fmt.Sprintf("case %d %s g=%d rows=%v: index record %s with %d fragments, specification: %s with %d fragments",
+				sc.ID, v.describe(), x.g, x.rows, got, b.pkMark.GetFragmentCount(), strings.Join(want, " "), be.Nf))
+			return
+		}
+		// --- NewKeyCondition: RPN length and key columns used, against the design, else the as-implemented model
+		k := v.realKeyCondition(x.cond, x.tb, b.pkSchema)
+		if k.panicv != nil || k.err != nil {
+			if !(x.sexp.Implerr && x.hasUnknownOpOrIn()) {
+				res.fail(1, "NewKeyCondition", fmt.Sprintf("case %d %s cond=%s tb=%+v: NewKeyCondition failed: err=%v panic=%v", sc.ID, v.describe(), x.cond, x.tb, k.err, k.panicv))
+				return
+			}
+		} else {
+			gl, gm := len(k.kc.GetRPN()), k.kc.GetMaxKeyIndex()+1
+			if !(gl == x.cexp.Rpnlen && gm == x.cexp.Maxkey) {
+				if gl == x.cexp.Implrpnlen && gm == x.cexp.Implmaxkey && x.hasUnknownOpOrIn() {
+					res.known("F-C20-3", fmt.Sprintf("case %d %s cond=%s: RPN has %d elements (design %d): no element for an operator genRPNElementByOp does not know", sc.ID, v.describe(), x.cond, gl, x.cexp.Rpnlen))
+				} else {
+					res.fail(1, "NewKeyCondition", fmt.Sprintf("case %d %s cond=%s tb=%+v: RPN length %d, key columns used %d; specification %d, %d (as-implemented model %d, %d)",
+						sc.ID, v.describe(), x.cond, x.tb, gl, gm, x.cexp.Rpnlen, x.cexp.Maxkey, x.cexp.Implrpnlen, x.cexp.Implmaxkey))
+					return
 				}
 			}
 		}
-		sort.Slice(rows, func(a, b int) bool {
-			for j := 0; j < k; j++ {
-				if rows[a][j] != rows[b][j] {
-					return rows[a][j] < rows[b][j]
-				}
-			}
-			return false
-		})
-		g := 1 + rng.Intn(3)
-		cond := randCond(rng, k, 3, false)
-		v := randVariant(rng, k, rows, cond)
-		want := matchFrags(cond, rows, g)
+		// --- Scan, every setting
+		match := v.matchFrags(x.full, x.rows, x.g)
+		if ok, _ := subset(match, x.sexp.Match); !ok || (!x.full.has(func(c *spCond) bool { return c.T == "strop" }) && !sameInts(match, x.sexp.Match)) {
+			res.Infra = fmt.Sprintf("case %d: harness oracle %v disagrees with the specification's matching fragments %v", sc.ID, match, x.sexp.Match)
+			return
+		}
 		for _, st := range spSettings {
-			out, _ := v.realScan(rows, g, cond, nil, st)
-			if out.panicv != nil {
-				key := fmt.Sprint(out.panicv)
-				if i := strings.Index(key, " with length"); i > 0 {
-					key = key[:i]
-				}
-				if panics[key] == 0 {
-					fmt.Printf("PANIC rows=%v g=%d cond=%s setting=%s: %v\n%s\n", rows, g, cond, st.name, out.panicv, out.stack)
-				}
-				panics[key]++
-				continue
+			out := v.realScan(x.rows, x.g, x.cond, x.tb, st)
+			if t := x.judge(v, st, out, match); t != "" {
+				res.fail(2, "Scan", t)
 			}
-			if out.err != nil {
-				errs[out.err.Error()]++
-				continue
+		}
+		if sc.Skip {
+			if t := spSkipIndexes(x, v, match, tmp); t != "" {
+				res.fail(2, "SkipIndex", t)
 			}
-			if ok, miss := subset(want, out.sel); !ok {
-				bad++
-				if shown < 15 {
-					shown++
-					var ts []string
-					for _, c := range v.cols {
-						ts = append(ts, fmt.Sprint(c.typ))
-					}
-					fmt.Printf("UNSOUND rows=%v g=%d cond=%s types=%v setting=%s sel=%v match=%v missing=%v\n", rows, g, cond, ts, st.name, out.sel, want, miss)
+		}
+	}
+	return
+}
+
+// ---- skip indexes ---------------------------------------------------------------------------------
+//
+// The readers are driven on what the real writers produce for the case's record (one fragment =
+// one block):
+//   set         SetWriter writes nothing; SetIndexReader.MayBeInFragment
+//   min-max     MinMaxWriter writes nothing and MinMaxIndexReader has no production ReadFunc: the
+//               reader is given the per-fragment [min, max] record its comment documents
+//   bloomfilter BloomFilterWriter.CreateAttachIndex writes the real file; BloomFilterIndexReader
+//               reads it back (string columns only)
+// Judged like Scan: a fragment with a matching row for which MayBeInFragment answers false.
+//
+// F-C20-5  SetIndexReader.MayBeInFragment returns false for every fragment.
+
+type spMockTssp struct{ path string }
+
+func (f *spMockTssp) Path() string { return f.path }
+func (f *spMockTssp) Name() string { return "" }
+
+func spSkipIndexes(x *spCtx, v *spVariant, match []int, tmp string) (viol string) {
+	r := x.res
+	defer func() {
+		if p := recover(); p != nil {
+			viol = fmt.Sprintf("case %d %s: skip-index reader panicked: %v\n%s", x.caseID, v.describe(), p, debug.Stack())
+		}
+	}()
+	if x.tb.active() || x.full.has(func(c *spCond) bool { return c.T == "in" || (c.T == "strop" && c.Op != "matchphrase") }) {
+		return "" // conditions the skip-index condition builder rejects as a whole are covered by the primary-index part
+	}
+	b, err := v.realBuild(x.rows, x.g)
+	if err != nil {
+		return ""
+	}
+	nf := int(b.pkMark.GetFragmentCount())
+	where := fmt.Sprintf("case %d %s g=%d rows=%v cond=%s", x.caseID, v.describe(), x.g, x.rows, x.cond)
+	opt := &query.ProcessorOptions{Condition: v.expr(x.cond)}
+	// --- set index on every key column of the condition
+	{
+		rd, err := sparseindex.NewSetIndexReader(rpn.ConvertToRPNExpr(v.expr(x.cond)), b.pkSchema, opt, true)
+		if err == nil {
+			_ = rd.ReInit(&spMockTssp{path: filepath.Join(tmp, "x.tssp")})
+			for _, f := range match {
+				r.SkipEval++
+				ok, err := rd.MayBeInFragment(uint32(f))
+				if err == nil && !ok {
+					r.known("F-C20-5", fmt.Sprintf("%s: set index: fragment %d contains a matching row, SetIndexReader.MayBeInFragment says false", where, f))
+					break
 				}
 			}
 		}
 	}
-	fmt.Printf("cases=%d unsound-scans=%d errors=%v panics=%v\n", n, bad, errs, panics)
-	return 0
+	// --- bloom filter on every string key column the condition names with matchphrase or a comparison
+	for ci, col := range v.cols {
+		if col.typ != influx.Field_Type_String {
+			continue
+		}
+		named := x.full.has(func(c *spCond) bool { return (c.T == "cmp" || c.T == "strop") && c.C == ci+1 })
+		if !named {
+			continue
+		}
+		dir := filepath.Join(tmp, fmt.Sprintf("bf%d", x.caseID))
+		_ = os.MkdirAll(filepath.Join(dir, "m"), 0o750)
+		data := "00000001-0001-00000000.tssp"
+		w := sparseindex.NewBloomFilterWriter(dir, "m", data, "", tokenizer.CONTENT_SPLITTER)
+		rowsPerSeg := immutable.GenFixRowsPerSegment(b.rec, x.g)
+		if err := w.CreateAttachIndex(b.rec, []int{ci}, rowsPerSeg); err != nil {
+			_ = os.RemoveAll(dir)
+			return fmt.Sprintf("%s: BloomFilterWriter.CreateAttachIndex: %v", where, err)
+		}
+		written := filepath.Join(dir, "m", colstore.AppendSecondaryIndexSuffix(data, col.name, index.BloomFilter, 0)+".init")
+		final := filepath.Join(dir, "m", "00000001-0001-00000000."+col.name+colstore.BloomFilterIndexFileSuffix)
+		if err := os.Rename(written, final); err != nil {
+			_ = os.RemoveAll(dir)
+			return fmt.Sprintf("%s: bloom filter file %s not written: %v", where, written, err)
+		}
+		sch := record.Schemas{{Name: col.name, Type: influx.Field_Type_String}}
+		opt := &query.ProcessorOptions{Condition: v.expr(x.cond)}
+		rd, err := sparseindex.NewBloomFilterIndexReader(rpn.ConvertToRPNExpr(v.expr(x.cond)), sch, opt, true)
+		if err == nil {
+			err = rd.ReInit(&spMockTssp{path: filepath.Join(dir, "m", data)})
+		}
+		if err != nil {
+			_ = os.RemoveAll(dir)
+			return fmt.Sprintf("%s: bloom filter reader on %s: %v", where, col.name, err)
+		}
+		for f := 0; f < nf; f++ {
+			r.SkipEval++
+			ok, err := rd.MayBeInFragment(uint32(f))
+			if err != nil {
+				_ = os.RemoveAll(dir)
+				return fmt.Sprintf("%s: bloom filter MayBeInFragment(%d): %v", where, f, err)
+			}
+			if in, _ := subset([]int{f}, match); in && !ok {
+				_ = os.RemoveAll(dir)
+				return fmt.Sprintf("%s: bloom filter on %s: fragment %d contains a matching row, MayBeInFragment says false (matching=%v)", where, col.name, f, match)
+			}
+		}
+		_ = os.RemoveAll(dir)
+	}
+	// --- min-max over the first key column
+	viol = spMinMax(x, v, b, match, where)
+	return
+}
+
+// spMinMax gives MinMaxIndexReader the record its MayBeInFragment indexes: it takes rows f and f+1
+// as [min, max] of fragment f, which is what a sorted column produces (the first value of every
+// fragment plus the last value). It is driven for conditions on the FIRST key column only (the
+// column that is sorted on its own).
+func spMinMax(x *spCtx, v *spVariant, b spBuilt, match []int, where string) string {
+	if x.cexp.Maxkey != 1 || x.full.has(func(c *spCond) bool { return c.T == "nonkey" || c.T == "strop" }) {
+		return ""
+	}
+	sch := record.Schemas{b.pkSchema[0]}
+	opt := &query.ProcessorOptions{Condition: v.expr(x.cond)}
+	rd, err := sparseindex.NewMinMaxIndexReader(rpn.ConvertToRPNExpr(v.expr(x.cond)), sch, opt, true)
+	if err != nil {
+		return ""
+	}
+	rd.ReadFunc = func(file interface{}, rec *record.Record, isCache bool) (*record.Record, error) {
+		out := record.NewRecord(sch, false)
+		out.ColVals[0].AppendColVal(b.pkRec.Column(0), sch[0].Type, 0, b.pkRec.RowNums())
+		return out, nil
+	}
+	if err := rd.ReInit(&spMockTssp{path: "x.tssp"}); err != nil {
+		return fmt.Sprintf("%s: min-max reader ReInit: %v", where, err)
+	}
+	nf := int(b.pkMark.GetFragmentCount())
+	for f := 0; f < nf; f++ {
+		x.res.SkipEval++
+		ok, err := rd.MayBeInFragment(uint32(f))
+		if err != nil {
+			return fmt.Sprintf("%s: min-max MayBeInFragment(%d): %v", where, f, err)
+		}
+		if in, _ := subset([]int{f}, match); in && !ok {
+			return fmt.Sprintf("%s: min-max on %s: fragment %d contains a matching row, MayBeInFragment says false (matching=%v)", where, sch[0].Name, f, match)
+		}
+	}
+	return ""
 }
 
 // ---- replay -------------------------------------------------------------------------------------
 
 func replaySparse(args []string) int {
+	tmp, err := os.MkdirTemp("/dev/shm", "vh-sparse-")
+	if err != nil {
+		fmt.Fprintln(os.Stderr, err)
+		return 2
+	}
+	defer os.RemoveAll(tmp)
 	sc := bufio.NewScanner(os.Stdin)
 	sc.Buffer(make([]byte, 1<<20), 1<<28)
-	_ = json.Marshal
+	out := bufio.NewWriter(os.Stdout)
+	defer out.Flush()
+	bad := 0
 	for sc.Scan() {
+		line := sc.Bytes()
+		if len(line) == 0 {
+			continue
+		}
+		var c spCase
+		if err := json.Unmarshal(line, &c); err != nil {
+			fmt.Fprintln(os.Stderr, "bad case:", err)
+			return 2
+		}
+		done := make(chan spResult, 1)
+		go func() { done <- runSparseCase(&c, tmp) }()
+		var r spResult
+		select {
+		case r = <-done:
+		case <-time.After(120 * time.Second):
+			r = spResult{ID: c.ID, Hang: true, Detail: "case did not finish within 120s"}
+			b, _ := json.Marshal(r)
+			out.Write(b)
+			out.WriteByte('\n')
+			out.Flush()
+			os.Exit(3)
+		}
+		if !r.OK {
+			bad++
+		}
+		b, _ := json.Marshal(r)
+		out.Write(b)
+		out.WriteByte('\n')
+	}
+	if bad > 0 {
+		return 1
 	}
 	return 0
 }
